@@ -22,7 +22,8 @@ from vlib import contracts
 from vlib import election as E
 
 RULE = ("simulated audits with 1-4 contests of different risk limits, audit types and social choice functions; each case "
-        "calls set_p_values 2-3 times (same cards re-read, grown sample, after reset) and summarize_status after each; "
+        "calls set_p_values 2-3 times (same cards re-read, grown sample, after reset; stale test bounds, random_order false) "
+        "and summarize_status after each; "
         "non-trivial = at least two contests with different risk limits and both confirmed and unconfirmed assertions "
         "occurred in the case; distinct = hash of the spec")
 REQUIRED = ["contract:Assertion.set_p_values", "contract:Audit.summarize_status", "contract:Assertion.reset_p_values",
